@@ -22,6 +22,7 @@ pub mod c13;
 pub mod c14;
 pub mod lockstep;
 pub mod corpus;
+pub mod c15;
 pub mod c16;
 pub mod c17;
 pub mod c18;
